@@ -1425,6 +1425,40 @@ impl<'p> Ctx<'p> {
     }
 }
 
+/// value of a simple constant integer expression (literals, parentheses, << >> | & ^ + - *, Self::NAME.bits())
+fn const_eval(e: &syn::Expr, known: &[(String, String)]) -> Option<u64> {
+    match e {
+        syn::Expr::Lit(syn::ExprLit { lit: syn::Lit::Int(i), .. }) => i.base10_parse::<u64>().ok(),
+        syn::Expr::Paren(p) => const_eval(&p.expr, known),
+        syn::Expr::Binary(b) => {
+            let l = const_eval(&b.left, known)?;
+            let r = const_eval(&b.right, known)?;
+            match b.op {
+                syn::BinOp::Shl(_) => l.checked_shl(r as u32),
+                syn::BinOp::Shr(_) => l.checked_shr(r as u32),
+                syn::BinOp::BitOr(_) => Some(l | r),
+                syn::BinOp::BitAnd(_) => Some(l & r),
+                syn::BinOp::BitXor(_) => Some(l ^ r),
+                syn::BinOp::Add(_) => l.checked_add(r),
+                syn::BinOp::Sub(_) => l.checked_sub(r),
+                syn::BinOp::Mul(_) => l.checked_mul(r),
+                _ => None,
+            }
+        }
+        syn::Expr::Field(f) => {
+            // Self::NAME.bits
+            if let syn::Expr::Path(p) = &*f.base {
+                let name = p.path.segments.last()?.ident.to_string();
+                let (_, v) = known.iter().find(|(n, _)| *n == name)?;
+                let digits: String = v.trim_start_matches('(').chars().take_while(|c| c.is_ascii_digit()).collect();
+                return digits.parse::<u64>().ok();
+            }
+            None
+        }
+        _ => None,
+    }
+}
+
 fn top_level_comma(s: &str) -> Option<usize> {
     let mut depth = 0i32;
     for (i, c) in s.char_indices() {
@@ -1734,15 +1768,29 @@ fn main() {
                                         // value expression: tokens after `=` up to `;`
                                         let mut k = j + 3;
                                         let mut v = String::new();
+                                        let mut first: Option<usize> = None;
+                                        let mut last: usize = 0;
                                         while k < inner.len() {
                                             if let proc_macro2::TokenTree::Punct(p) = &inner[k] {
                                                 if p.as_char() == ';' {
                                                     break;
                                                 }
                                             }
-                                            v.push_str(&inner[k].to_string());
-                                            v.push(' ');
+                                            let r = inner[k].span().byte_range();
+                                            if first.is_none() {
+                                                first = Some(r.start);
+                                            }
+                                            last = r.end;
                                             k += 1;
+                                        }
+                                        if let Some(f0) = first {
+                                            v.push_str(&src[f0..last]);
+                                        }
+                                        // constant folding of simple integer expressions (the solver does not evaluate shifts)
+                                        if let Ok(ex) = syn::parse_str::<syn::Expr>(&v) {
+                                            if let Some(val) = const_eval(&ex, &consts) {
+                                                v = format!("{} /* {} */", val, v);
+                                            }
                                         }
                                         consts.push((cn.to_string(), format!("({})", v.trim())));
                                     }
@@ -1758,7 +1806,7 @@ fn main() {
                 cx.out.errors.push(format!("unsupported construct: bitflags! at line {} not understood", cx.line_of(s)));
                 continue;
             }
-            let all: Vec<String> = consts.iter().map(|(_, v)| format!("({} as u64)", v)).collect();
+            let all: Vec<String> = consts.iter().map(|(c, _)| format!("{}::{}.bits", name, c)).collect();
             let mask = all.join(" | ");
             let mut t = format!("// R9: stub generated from the bitflags! invocation at {}:{} (constants read from its tokens)\n#[derive(Clone, Copy)]\npub struct {name} {{ pub bits: u64 }}\nimpl {name} {{\n", short(&plan.file), cx.line_of(s));
             for (c, v) in &consts {
